@@ -1,8 +1,10 @@
 package graph
 
 import (
+	"cmp"
 	"errors"
 	"fmt"
+	"slices"
 
 	"gonum.org/v1/gonum/graph"
 	"gonum.org/v1/gonum/graph/encoding"
@@ -68,23 +70,37 @@ func (g *AuthorizationModelGraph) Reversed() (*AuthorizationModelGraph, error) {
 		graphBuilder.AddNode(nextNode)
 	}
 
-	// Add all edges as-is, but with their From and To flipped.
+	// Collect all edges.
+	// NOTE: because we use a multigraph, one edge can include multiple lines, so we need to add each line individually.
+	var lines []*AuthorizationModelEdge
+
 	iterEdges := g.Edges()
 	for iterEdges.Next() {
 		nextEdge, ok := iterEdges.Edge().(multi.Edge)
 		if !ok {
 			return nil, fmt.Errorf("%w: could not cast to multi.Edge", ErrBuildingGraph)
 		}
-		// NOTE: because we use a multigraph, one edge can include multiple lines, so we need to add each line individually.
+
 		iterLines := nextEdge.Lines
 		for iterLines.Next() {
-			nextLine := iterLines.Line()
-			casted, ok := nextLine.(*AuthorizationModelEdge)
+			casted, ok := iterLines.Line().(*AuthorizationModelEdge)
 			if !ok {
 				return nil, fmt.Errorf("%w: could not cast to AuthorizationModelEdge", ErrBuildingGraph)
 			}
-			graphBuilder.AddEdge(nextLine.To(), nextLine.From(), casted.edgeType, casted.tuplesetRelation, casted.conditions)
+
+			lines = append(lines, casted)
 		}
+	}
+
+	// Add them as-is, but with their From and To flipped, in the order in which they were created:
+	// the iterators above follow Go's map order, new line ids are handed out in the order of insertion
+	// and the DOT text lists parallel lines by id, so any other order makes the output unstable.
+	slices.SortFunc(lines, func(a, b *AuthorizationModelEdge) int {
+		return cmp.Compare(a.ID(), b.ID())
+	})
+
+	for _, line := range lines {
+		graphBuilder.AddEdge(line.To(), line.From(), line.edgeType, line.tuplesetRelation, line.conditions)
 	}
 
 	// Make a brand new copy of the map.
